@@ -31,6 +31,31 @@ namespace Upnp.C11
 open Upnp PyDict Upnp.C09 Upnp.C10
 variable [FloatOracle]
 
+/-- **Exact values and exact callback counts.**  For every schedule inside the domain: after it, every service
+    holds EXACTLY what the NOTIFYs received for the SID granted to it leave when applied one after the other in
+    arrival order with C10's per-event semantics (`ideal`: a valid text is stored, an unconvertible one reads
+    absent, an out-of-range one leaves the previous value) — nothing for a service without a granted SID, nothing
+    from NOTIFYs for other SIDs — and has seen exactly one callback per such NOTIFY.  This is stronger than the
+    run-time judge (which makes no demand when the latest text is invalid and bounds the callback count). -/
+theorem c11_exact (cfg : Cfg) (decls : List (List Var)) (hd : ∀ ds ∈ decls, declsWF ds) (evs : List Ev)
+    (hs : allInScope {} evs = true) :
+    let s := run cfg (initSt decls) evs 0
+    let js := evs.foldl advance {}
+    s.h.svcs.length = decls.length ∧
+    ∀ i ds sv, decls[i]? = some ds → s.h.svcs[i]? = some sv →
+      valsOf sv = ideal ds (notifiesFor js i) ∧ sv.events.length = (notifiesFor js i).length := by
+  have key : ∀ (evs : List Ev) (s : St) (js : JS) (k : Nat), Inv decls s js → allInScope js evs = true →
+      Inv decls (run cfg s evs k) (evs.foldl advance js) := by
+    intro evs
+    induction evs with
+    | nil => intro s js k inv _; exact inv
+    | cons e r ih =>
+      intro s js k inv hsc
+      simp only [allInScope, Bool.and_eq_true] at hsc
+      simp only [run, List.foldl_cons]
+      exact ih _ _ _ (step_inv cfg decls hd s js inv e k hsc.1).1 hsc.2
+  exact (key evs _ _ 0 (inv_init decls) hs).svcs
+
 /-- **The model's atomic events are the code's** (audit C11-1): no suspension point in `handle_notify`, none in
     `async_subscribe` between registering the SID and returning other than the replay's own `handle_notify` calls —
     so no NOTIFY can be processed between "SID registered" and "backlog replayed" and overtake an early one. -/
@@ -67,16 +92,15 @@ theorem early_notify_200 (h : Handler) (n : Notify) (tick : Nat) (hk : hdrsOk n.
 
 /-- **No loss**: when the response granting SID `x` to service `svc` arrives, the whole backlog of `x` —
     every NOTIFY that raced the response, in arrival order — is applied to `svc` exactly as if each had
-    arrived after the subscribe call returned; the call returns the SID; the backlog entry is gone. -/
+    arrived after the subscribe call returned (whatever TIMEOUT header the response carries); the call returns the SID; the backlog entry is gone. -/
 theorem no_loss (h : Handler) (svc : Nat) (t : Int) (x : Str) (th : Option Str) (tick : Nat)
-    (hs : (grantedTimeout th 0).isSome = true)
     (hitems : ∀ n ∈ (get? h.backlog x).getD [], hdrsOk n.hdrs = true ∧ n.hdrs.sid = some x ∧ n.malformed = false) :
     ∃ g, finishSubscribe h svc t (.resp 200 (some x) th) tick =
       ((⟨PyDict.set h.rt x svc, erase h.backlog x,
          modifyAt h.svcs svc fun sv =>
           ((get? h.backlog x).getD []).foldl (fun sv n => notifyChanged sv (changesOf n.body) tick) sv⟩ : Handler),
        .sub x g) := by
-  obtain ⟨g, hfin⟩ := subscribeFinish_grant h.rt svc t x th hs
+  obtain ⟨g, hfin⟩ := grant_any_timeout h.rt svc t x th
   refine ⟨g, ?_⟩
   have := replay_spec { h with rt := PyDict.set h.rt x svc } x svc (get?_set_self _ _ _) _ hitems tick
   have hE := replayE_eq { h with rt := PyDict.set h.rt x svc } x svc (get?_set_self _ _ _) _ hitems tick
@@ -156,5 +180,14 @@ example : ok exDecls ((modelTrace exCfg (initSt exDecls) exSchedule 0).map fun o
 /-- … and a callback made on behalf of a NOTIFY whose SID was never granted -/
 example : ok exDecls ((modelTrace exCfg (initSt exDecls) exSchedule 0).map fun o =>
     { o with cbs := o.cbs.map (· + 1) }) = false := by decide
+
+/-- `c11_exact` says more than the judge: A=1 then A=999 (out of range) before the response leaves exactly 1 -/
+def exInvalidLatest : List Ev :=
+  [ .start 0 1800,
+    .notify ⟨okHdrs, [⟨true, [⟨[], ['A'], ['1']⟩]⟩], false⟩,
+    .notify ⟨okHdrs, [⟨true, [⟨[], ['A'], ['9','9','9']⟩]⟩], false⟩,
+    .respond 0 (.resp 200 (some sid0) (some ['S','e','c','o','n','d','-','a','b'])) ]
+example : readVals (run exCfg (initSt exDecls) exInvalidLatest 0) = [[(['A'], .int 1), (['B'], .none)]] := by decide
+example : allInScope {} (exInvalidLatest.take 3) = true := by decide
 
 end Upnp.C11.Ex
